@@ -526,7 +526,7 @@ Definition err_msg (e : err) : string :=
 
 Definition show_outcome (o : outcome) : string :=
   match o with
-  | Ok ls => "O" ++ show_sep "," hex_of_bytes ls
+  | Ok ls => "O" ++ show_sep "," (fun l => "=" ++ hex_of_bytes l) ls
   | Error e => "E" ++ kind_name e ++ ":" ++ hex_of_bytes (bytes_of_string (err_msg e))
   end.
 
